@@ -16,8 +16,9 @@
 (*    "returned unchanged by text extraction" means).                       *)
 (*  - impl-shaped (explains, never decides): ImplEnc / ImplDec transcribe   *)
 (*    text_string / decode_text_string of src/common_data_structures/mod.rs *)
-(*    with the confirmed deviations as switches (Dev \subseteq {"h36","h37"}),*)
-(*    and Sig(case), the classifier that names the deviation class.         *)
+(*    with the confirmed deviations as switches (dev \subseteq AllDevs), and *)
+(*    the classifier SigsRT / SigsDec / Explained that names the deviation  *)
+(*    classes a failing case falls into.                                    *)
 (***************************************************************************)
 EXTENDS Naturals, Sequences, FiniteSets, SequencesExt, TLC
 
@@ -220,23 +221,34 @@ MatchStep(r, S, t) == {q + Len(t) : q \in {p \in WsClosure(r, S) :
 Match(ts, r) == Len(r) \in WsClosure(r, FoldLeft(LAMBDA S, t : MatchStep(r, S, t), {0}, ts))
 
 -----------------------------------------------------------------------------
-(* Impl-shaped layer: text_string / decode_text_string as written, deviations as switches.        *)
-(*   h36  PDF_DOC_ENCODING cells 0x00-0x17 and 0x7F are None and 0x18-0x1F are the accents, but   *)
-(*        text_string stores every ASCII character as its own byte                                *)
-(*   h37  the UTF-8 branch hands the whole slice (mark included) to String::from_utf8             *)
+(* Impl-shaped layer: text_string / decode_text_string as written, the confirmed deviations as    *)
+(* switches named by their finding signature (dev \subseteq AllDevs; {} = "as repaired"):           *)
+(*   pdfdoc.c0        PDF_DOC_ENCODING cells 0x09, 0x0A, 0x0D are None         \                   *)
+(*   pdfdoc.c0.undef  ... so are the other cells below 0x18                     | while text_string *)
+(*   pdfdoc.c18       cells 0x18-0x1F are the spacing accents                   | stores every ASCII *)
+(*   pdfdoc.del       cell 0x7F is None                                        /  character as itself*)
+(*   utf8.bom.kept    the UTF-8 branch hands the whole slice (mark included) to String::from_utf8   *)
+(* A switch that is off stands for "repaired so that the character survives the round trip".       *)
 
-AllDevs == {"h36", "h37"}
+AllDevs == {"pdfdoc.c0", "pdfdoc.c0.undef", "pdfdoc.c18", "pdfdoc.del", "utf8.bom.kept"}
 
 Accents == <<\h2D8, \h2C7, \h2C6, \h2D9, \h2DD, \h2DB, \h2DA, \h2DC>>      \* PDFDoc 0x18-0x1F
 PdfDocMid == <<\h2022, \h2020, \h2021, \h2026, \h2014, \h2013, \h192, \h2044, \h2039, \h203A, \h2212,
                \h2030, \h201E, \h201C, \h201D, \h2018, \h2019, \h201A, \h2122, \hFB01, \hFB02, \h141,
                \h152, \h160, \h178, \h17D, \h131, \h142, \h153, \h161, \h17E>>   \* PDFDoc 0x80-0x9E
 
+\* the deviation an ASCII character of class cl runs into ("none": it survives)
+DevOfClass(cl) == CASE cl = "c0ws"    -> "pdfdoc.c0"
+                    [] cl = "c0other" -> "pdfdoc.c0.undef"
+                    [] cl = "c18"     -> "pdfdoc.c18"
+                    [] cl = "del"     -> "pdfdoc.del"
+                    [] OTHER          -> "none"
+
 ImplPdfDocCell(b, dev) ==
-    IF b < \h18 THEN (IF "h36" \in dev THEN <<>> ELSE <<b>>)
-    ELSE IF b < \h20 THEN (IF "h36" \in dev THEN <<Accents[b - \h17]>> ELSE <<b>>)
-    ELSE IF b < \h7F THEN <<b>>
-    ELSE IF b = \h7F THEN (IF "h36" \in dev THEN <<>> ELSE <<b>>)
+    IF b < \h80
+    THEN IF DevOfClass(ClassOf(b)) \in dev
+         THEN (IF b \in \h18..\h1F THEN <<Accents[b - \h17]>> ELSE <<>>)
+         ELSE <<b>>
     ELSE IF b < \h9F THEN <<PdfDocMid[b - \h7F]>>
     ELSE IF b \in DOMAIN PubPdfDoc THEN <<PubPdfDoc[b]>>
     ELSE <<>>                                                    \* 0x9F, 0xAD
@@ -249,24 +261,24 @@ ImplUnits(body) == [i \in 1..((Len(body) + 1) \div 2) |->
 
 ImplDec(b, dev) ==
     CASE Branch(b) = "u16" -> FromUtf16(ImplUnits(SubSeq(b, 3, Len(b))))
-      [] Branch(b) = "u8"  -> FromUtf8(IF "h37" \in dev THEN b ELSE SubSeq(b, 4, Len(b)))
+      [] Branch(b) = "u8"  -> FromUtf8(IF "utf8.bom.kept" \in dev THEN b ELSE SubSeq(b, 4, Len(b)))
       [] OTHER             -> Def(FoldLeft(LAMBDA acc, x : acc \o ImplPdfDocCell(x, dev), <<>>, b))
 
 -----------------------------------------------------------------------------
-(* Classifier: which confirmed deviation explains a case (DESIGN 2.9).  Computed from the input.  *)
+(* Classifier (DESIGN 2.9): the deviations of dev that a case runs into, computed from the input.  *)
+(* A failing case is *explained* when lopdf returned exactly what the impl-shaped layer predicts    *)
+(* for some non-empty set D of these; its signatures are then the members of D.                     *)
 
-\* round trip of s through text_string: the first character ASCII text loses decides the class
-FirstBadAscii(s) == LET I == {i \in 1..Len(s) : s[i] < \h20 \/ s[i] = \h7F} IN
-                    IF I = {} THEN 0 ELSE CHOOSE i \in I : \A j \in I : i <= j
-SigRT(s, dev) ==
-    IF "h36" \in dev /\ AllAscii(s) /\ FirstBadAscii(s) # 0
-    THEN LET cl == ClassOf(s[FirstBadAscii(s)]) IN
-         CASE cl = "c0ws"    -> "pdfdoc.c0"          \* TAB LF CR dropped
-           [] cl = "c0other" -> "pdfdoc.c0.undef"    \* other controls below 0x18 dropped
-           [] cl = "c18"     -> "pdfdoc.c18"         \* 0x18-0x1F come back as spacing accents
-           [] cl = "del"     -> "pdfdoc.del"         \* 0x7F dropped
-    ELSE "none"
+\* round trip of s through text_string
+SigsRT(s, dev) == IF AllAscii(s) THEN {DevOfClass(ClassOf(s[i])) : i \in 1..Len(s)} \cap dev ELSE {}
 
 \* decoding raw bytes b
-SigDec(b, dev) == IF "h37" \in dev /\ Branch(b) = "u8" /\ Dec(b).def THEN "utf8.bom.kept" ELSE "none"
+SigsDec(b, dev) == IF Branch(b) = "u8" /\ Dec(b).def THEN {"utf8.bom.kept"} \cap dev ELSE {}
+
+\* the explanations on offer for a case whose deviations are R: every non-empty subset with its prediction
+Alternatives(b, R) == {[sigs |-> D, impl |-> ImplDec(b, D)] : D \in (SUBSET R) \ {{}}}
+
+\* the set of signatures explaining result d for input bytes b ({} = not explained)
+Explained(b, R, d) == LET hits == {a \in Alternatives(b, R) : a.impl = d} IN
+                      IF hits = {} THEN {} ELSE (CHOOSE a \in hits : TRUE).sigs
 =============================================================================
